@@ -759,3 +759,66 @@ class RouterAddInner(Contract):
 
 
 CONTRACTS += [RouterAddInner()]
+
+
+class ToPattern(Contract):
+    """RadiRouter.to_pattern: the pattern of a rule is EXACTLY what parse_rule makes of it - the same function registration uses -
+    so removal and hook removal address the node registration created (no extra normalisation on one side only)."""
+    props = ('C11',)
+    file = 'ombott/router/radirouter.py'
+    qualname = 'RadiRouter.to_pattern'
+    expected_labels = ('pattern.is_the_first_component_of_parse_rule',)
+
+    def pre(self, X):
+        self.rule = X.fresh_str('rule')
+        self.pattern = X.fresh_str('pattern')
+        c = self
+
+        def parse_rule(X, args, kwargs):
+            X.prove('pattern.parsed_from_this_rule', z3.BoolVal(len(args) >= 1 and args[-1] is c.rule))
+            return VTuple([c.pattern, VOpaque(X.fresh(PyObj, 'params'), 'p'), VOpaque(X.fresh(PyObj, 'filters'), 'f'),
+                           VOpaque(X.fresh(PyObj, 'po'), 'po'), VOpaque(X.fresh(PyObj, 'fo'), 'fo')])
+        self.stubs = {'Cls.parse_rule': parse_rule}
+        return {'cls': VObj('Cls', {}), 'rule': self.rule}
+
+    def post(self, X, ret):
+        X.prove('pattern.is_the_first_component_of_parse_rule', z3.BoolVal(ret is self.pattern))
+
+    def post_raise(self, X, exc):
+        X.prove('raises.nothing', z3.BoolVal(False))
+
+
+class RemoveHook(Contract):
+    """RadiRouter.remove_hook: the hook is removed from the tree node of to_pattern(rule) in hooks-only mode and from the hook index
+    under the same pattern; routes are not touched by this function."""
+    props = ('C11',)
+    file = 'ombott/router/radirouter.py'
+    qualname = 'RadiRouter.remove_hook'
+    expected_labels = ('hook.removed_from_tree_and_index_under_one_pattern',)
+
+    def pre(self, X):
+        self.rule = X.fresh_str('rule')
+        self.pattern = X.fresh_str('pattern')
+        self.ev = []
+        c = self
+        self.stubs = {'Router.to_pattern': lambda X, a, k: (c.ev.append(('to_pattern', a[1:])), c.pattern)[1],
+                      'Tree.remove': lambda X, a, k: (c.ev.append(('tree.remove', a[1:], dict(k))), NONE)[1],
+                      'Hooks.pop': lambda X, a, k: (c.ev.append(('hooks.pop', a[1:])), NONE)[1]}
+        self.me = VObj('Router', {'radidict': VObj('Tree', {}), 'hooks': VObj('Hooks', {}), 'routes': VObj('Routes', {}),
+                                  'named_routes': VObj('Names', {})})
+        return {'self': self.me, 'rule': self.rule}
+
+    def post(self, X, ret):
+        tr = [e for e in self.ev if e[0] == 'tree.remove']
+        hp = [e for e in self.ev if e[0] == 'hooks.pop']
+        tp = [e for e in self.ev if e[0] == 'to_pattern']
+        ok = (len(tp) == 1 and tp[0][1][0] is self.rule and len(tr) == 1 and tr[0][1][0] is self.pattern and len(tr[0][1]) == 1
+              and set(tr[0][2]) == {'hooks_only'} and isinstance(tr[0][2]['hooks_only'], VBool) and z3.is_true(z3.simplify(tr[0][2]['hooks_only'].t))
+              and len(hp) == 1 and hp[0][1][0] is self.pattern)
+        X.prove('hook.removed_from_tree_and_index_under_one_pattern', z3.BoolVal(bool(ok)))
+
+    def post_raise(self, X, exc):
+        X.prove('raises.nothing', z3.BoolVal(False))
+
+
+CONTRACTS += [ToPattern(), RemoveHook()]
